@@ -1,5 +1,6 @@
 """C03 — the fitted proposal is a normalised density; sampling and evaluation agree."""
 import json
+import math
 import os
 import shutil
 import tempfile
@@ -135,6 +136,33 @@ def run(ctx):
                                   f"log-density returned with sample {lqv[i]} vs log_prob(sample) {lpv[i]} ({int(bad.sum())} of {len(bad)} samples; {state})", dict(c2, x=xv[i].tolist()))
                 if bt and (np.any(xv < lo) or np.any(xv > hi)):
                     ctx.violation(f"draw-outside-bounds:{backend}:{bt}", f"draws outside [{lo[0]}, {hi[0]}]: {xv[(xv < lo) | (xv > hi)][:3]}", c2)
+                # the flow as a MAP (what flow preconditioning uses): forward(x) = (z, log|dz/dx|) with EVERY Jacobian in it, so that
+                # log_prob(x) = log N(z; 0, I) + log|dz/dx| (both back-ends use a standard-normal base), and inverse undoes it
+                try:
+                    if backend != "zuko":
+                        raise StopIteration      # FlowJax.forward / inverse call methods flowjax's distribution does not have (DESIGN section 8, observation O1)
+                    xin_ = x[:40]
+                    zf, ljf = f_.forward(xin_)
+                    zf_ = np.asarray(nsutil.to_list(zf), float).reshape(-1, d)
+                    ljf_ = np.asarray(nsutil.to_list(ljf), float).reshape(-1)
+                    base = -0.5 * np.sum(zf_ * zf_, axis=1) - 0.5 * d * math.log(2 * math.pi)
+                    ins = inside[:40]
+                    tol2 = (2e-2 if width == "float32" else 1e-6) * (1 + np.abs(lpv[:40]))
+                    if np.any((np.abs(base + ljf_ - lpv[:40]) > tol2) & ins):
+                        i = int(np.argmax(np.where(ins, np.abs(base + ljf_ - lpv[:40]), 0)))
+                        ctx.violation(f"forward-map-jacobian:{backend}:{bt}:{'affine' if aff else 'noaffine'}",
+                                      f"log N(forward(x)) + reported log|dz/dx| = {base[i] + ljf_[i]} but log_prob(x) = {lpv[i]} ({state})", dict(c2, x=xv[i].tolist()))
+                    xb_, ljb_ = f_.inverse(zf)
+                    xb_ = np.asarray(nsutil.to_list(xb_), float).reshape(-1, d)
+                    ljb_ = np.asarray(nsutil.to_list(ljb_), float).reshape(-1)
+                    tolx = (5e-3 if width == "float32" else 1e-6) * (1 + np.abs(xv[:40]))
+                    if np.any((np.abs(xb_ - xv[:40]) > tolx) & ins[:, None]) or np.any((np.abs(ljb_ + ljf_) > tol2) & ins):
+                        ctx.violation(f"inverse-map:{backend}:{bt}:{'affine' if aff else 'noaffine'}",
+                                      f"inverse(forward(x)) != x or inverse log-Jacobian != - forward log-Jacobian ({state})", c2)
+                except StopIteration:
+                    pass
+                except Exception as e:
+                    ctx.violation(f"flow-map-raises:{backend}:{state}:{type(e).__name__}", f"forward / inverse of the flow raised {type(e).__name__}: {str(e)[:200]}", c2)
                 if len(ctx.samples) < 3:
                     ctx.sample(dict(c2, max_abs_diff=float(np.max(np.abs(lqv - lpv)))))
                 # quadrature over the support
